@@ -45,6 +45,14 @@ def strCmd (args : List String) : String :=
     | some a, some b => hex (a ++ b)
     | _, _ => "bad-op"
   | ["rune", n] => match n.toNat? with | some r => hex (encode r) | none => "bad-op"
+  | ["torunes", h] =>      -- []rune(s): the runes that range yields, without their offsets
+    match unhex h with
+    | some s => ",".intercalate ((runes s).map fun (_, r) => toString r)
+    | none => "bad-op"
+  | "ofrunes" :: ns =>     -- string(rs): every rune encoded
+    match ns.mapM String.toNat? with
+    | some rs => hex (encodeAll rs)
+    | none => "bad-op"
   | ["unq", h] => match unhex h with
     | some s => (match unquoteString s with | some t => hex t | none => "err")
     | none => "bad-op"
